@@ -56,9 +56,16 @@ func plyAttrs(pc PlyCase) []plyAttr {
 	return a
 }
 
+var plyLadder = core.Float32Ladder()
+
 // plyValue: vertex-unique, attribute-unique, mostly float32-inexact values (so a swapped column,
 // a swapped vertex or a lost digit is visible).
 func plyValue(family, attr, comp, i int) float64 {
+	if family >= 1000 {
+		// float32 value ladder: rung (family-1000) + a position-dependent shift, so that every rung
+		// passes through every column as the family runs over the ladder
+		return float64(math.Float32frombits(plyLadder[(family-1000+5*attr+comp+17*i)%len(plyLadder)]))
+	}
 	switch family {
 	case 0:
 		v := 0.1 + 0.37*float64(attr) + 1.13*float64(comp) + 7.77*float64(i)
@@ -310,6 +317,17 @@ func (k *checker) plyCase(pc PlyCase, scope string) {
 			}
 		}
 	}
+}
+
+func (k *checker) runPlyValues() {
+	c := k.c
+	for r := range plyLadder {
+		if !k.mine() {
+			continue
+		}
+		k.plyCase(PlyCase{N: 3, Mask: 31, Rest: 3, Family: 1000 + r, Reader: r % len(readerModes)}, "ply/value-ladder")
+	}
+	c.Bound("ply.value_ladder", fmt.Sprintf("%d float32 values through every column of a 3-splat cloud with all attributes and 3 f_rest harmonics", len(plyLadder)))
 }
 
 func (k *checker) runPly() {
